@@ -22,6 +22,9 @@ func dvExpect(c *ref.Content, field string, doc uint64) []string {
 	return c.DV[field][doc]
 }
 
+// ffMarker prefixes the message of the known 0xff finding (turned into its own signature).
+const ffMarker = "\x01FF\x01"
+
 type dvTarget struct {
 	name string
 	seg  segment.Segment
@@ -43,6 +46,17 @@ func visitOnce(t dvTarget, doc uint64, fields []string, st segment.DocVisitState
 		sort.Strings(g)
 		e := dvExpect(t.exp, f, doc)
 		if strings.Join(g, "\x00") != strings.Join(e, "\x00") || len(g) != len(e) {
+			// known finding: the doc-value encoding separates terms by the byte 0xff, so a term
+			// that contains 0xff comes back as several terms. Recognised exactly: the callbacks
+			// equal the reference with every term cut at 0xff.
+			var split []string
+			for _, t := range e {
+				split = append(split, strings.Split(t, "\xff")...)
+			}
+			sort.Strings(split)
+			if len(split) != len(e) && strings.Join(g, "\x00") == strings.Join(split, "\x00") {
+				return st2, ffMarker + fmt.Sprintf("VisitDocValues(%d,%q) on %s: field %q callbacks %q, want %q (a term containing the byte 0xff is returned in pieces)", doc, fields, t.name, f, g, e)
+			}
 			return st2, fmt.Sprintf("VisitDocValues(%d,%q) on %s: field %q callbacks %q, want %q", doc, fields, t.name, f, g, e)
 		}
 		delete(got, f)
@@ -57,12 +71,13 @@ func init() {
 	run.Register(&run.Def{
 		ID:          "C03",
 		Level:       "exploration",
-		Rule:        "bounded-exhaustive: every batch over a 10-entry per-document cell menu (field a: absent/{x}/{x,y}/{empty term}/present with doc values but no token; field b: absent/{x,z(freq 0)}; b with or without doc values) for N<=3 (quick) / N<=4 (thorough) x doc-value chunk size (LegacyChunkMode) in {1,2,3,1024} x segment in {in-memory, mmap-opened, merged-and-opened} x field list in {[a],[a,b],[b,a,zz]} x EVERY visiting sequence of documents (with repetition) of length <= L (4 quick / 5 thorough) x visit-state discipline in {fresh per call, one state threaded, one state alternated between this segment and a second segment with the same field list but different content}; plus N=7 batches with ascending/descending/zig-zag orders. Oracle per call: multiset of callbacks == reference terms of (doc, field), one callback per term; VisitableDocValueFields == dv-indexed fields. Non-trivial = batch with >= 2 documents carrying doc values.",
+		Rule:        "bounded-exhaustive: every batch over a 10-entry per-document cell menu (field a: absent/{x}/{x,y}/{empty term}/present with doc values but no token; field b: absent/{x,z(freq 0)}; b with or without doc values) for N<=3 (quick) / N<=4 (thorough) x doc-value chunk size (LegacyChunkMode) in {1,2,3,1024} x segment in {in-memory, mmap-opened, merged-and-opened} x field list in {[a],[a,b],[b,a,zz]} x EVERY visiting sequence of documents (with repetition) of length <= L (4 quick / 5 thorough) x visit-state discipline in {fresh per call, one state threaded, one state alternated between this segment and a second segment with the same field list but different content}; plus N=7 batches with ascending/descending/zig-zag orders; plus batches of <= 2 documents with a term that contains the byte 0xff (KNOWN FINDING: the doc-value encoding separates terms by 0xff, such a term is returned in pieces - reported under its own signature only when the callbacks equal the reference cut at 0xff). Oracle per call: multiset of callbacks == reference terms of (doc, field), one callback per term; VisitableDocValueFields == dv-indexed fields. Non-trivial = batch with >= 2 documents carrying doc values.",
 		Assumptions: append([]string{"doc-value terms contain no 0xff byte (bleve's term separator)"}, batchAssumptions...),
 		Bounds:      map[string]string{"quick": "N<=3, sequences of length<=4, 3 segment kinds, 3 state disciplines", "thorough": "N<=4 (L=4 for N=4, L=5 below), same"},
 		New:         func() interface{} { return &enum.DVCase{} },
 		Gen: func(tier string, emit func(interface{})) {
 			enum.DVBatches(tier, func(c enum.DVCase) { emit(c) })
+			enum.FFBatches(func(c enum.DVCase) { emit(c) })
 		},
 		Run: runC03,
 	})
@@ -162,6 +177,10 @@ func runC03(ci interface{}, a *run.Acc) {
 	}
 	fieldLists := [][]string{{"a"}, {"a", "b"}, {"b", "a", "zz"}}
 	fail := func(msg string, seq []int, disc string, fl []string) {
+		if strings.HasPrefix(msg, ffMarker) {
+			a.Violation("dv-term-containing-0xff-returned-in-pieces", fmt.Sprintf("%s\n%s", strings.TrimPrefix(msg, ffMarker), jsonStr(c)))
+			return
+		}
 		a.Violation("dv-mismatch", fmt.Sprintf("%s\nvisiting sequence %v, state discipline %s, fields %q, LegacyChunkMode %d\n%s", msg, seq, disc, fl, c.Legacy, jsonStr(c)))
 	}
 	runSeq := func(t dvTarget, fl []string, seq []int) bool {
